@@ -149,7 +149,8 @@ def i_collection_add_update(c):
     for _ in range(r.randint(1, 3)):
         e = r.choice(["4", c.t(), f"len({x})", f"sum({x})"])
         if kind == "list":
-            lines.append(r.choice([f"{x}.append({e})", f"{x}.extend([{e}, 5])", f"{x}.extend(({e},))", f"{x}.insert(0, {e})", f"{x}.extend(range(2))"]))
+            lines.append(r.choice([f"{x}.append({e})", f"{x}.extend([{e}, 5])", f"{x}.extend(({e},))", f"{x}.insert(0, {e})", f"{x}.extend(range(2))",
+                                   f"{x}.extend({{7, 3, 5, 3}})", f"{x}.extend({{{e}, 11, 9}})", f"{x}.extend({{2: 'b', 1: 'a'}})", f"{x}.extend('ba')", f"{x}.extend(frozenset([9, 8]))"]))
         else:
             lines.append(r.choice([f"{x}.add({e})", f"{x}.update([{e}, 5])", f"{x}.update({{6}})", f"{x}.discard({e})"]))
         if r.random() < 0.2:
@@ -692,7 +693,16 @@ def i_if_control_flow(c):
     x, y, z = c.name("x"), c.name("y"), c.name("z")
     test = r.choice([f"{z} > 1", f"{z} % 2", c.t(), f"{z} == {x}", f"len(str({z})) > 1"])
     lines = [f"{x} = {r.randint(2, 5)}", f"{y} = {r.randint(6, 9)}", f"{z} = {r.randint(0, 3)}"]
-    kind = r.choice(["same_shape", "same_shape", "common_head", "common_tail", "common_both", "head_effect"])
+    kind = r.choice(["same_shape", "same_shape", "common_head", "common_tail", "common_both", "head_effect", "walrus_head", "walrus_head"])
+    if kind == "walrus_head":  # the test binds a name (walrus, possibly nested) that the common first statement reads
+        n = c.name("n")
+        wal = r.choice([f"({n} := len(str({z} * 11))) > 1", f"({n} := {z} + 1)", f"len([{n} := {x}]) and {n} > 3", f"not ({n} := {z} % 2)"])
+        lines = [f"{x} = {r.randint(2, 5)}", f"{y} = {r.randint(6, 9)}", f"{z} = {r.randint(0, 3)}", f"{n} = -1"][: r.choice([3, 4])]
+        m = c.name("m")
+        head = r.choice([f"print('n is', {n})", f"{m} = {n} * 2", f"{m} = [{n}, {x}]", f"{m} = {n}"])  # with and without a call
+        show = [] if head.startswith("print") else [f"print({m})"]
+        lines += [f"if {wal}:"] + ind([head, f"print({x})"]) + ["else:"] + ind([head, f"print({y})"]) + show
+        return lines
     if kind == "same_shape":
         lines += [f"if {test}:"] + ind([f"print({x})", f"print({y} - {x} ** 2)", f"print(str({x}) + str({y} * {y}))"]) + ["else:"] + ind([f"print({y})", f"print({x} - {y} ** 2)", f"print(str({y}) + str({x} * {x}))"])
     elif kind == "common_head":
@@ -732,7 +742,7 @@ def i_comprehension_chains(c):
     r = c.r
     w, x, y = c.name("w"), c.name("x"), c.name("y")
     src = r.choice(["(3, 4, 5)", "range(6)", c.int_list(4), "[t(1), 2]" if r.random() < 0.2 else "range(2, 7)"])
-    kind = r.choice(["chained_same", "chained_mixed", "nested_filter", "named_sum", "named_sum_used_twice", "chained_transform"])
+    kind = r.choice(["chained_same", "chained_mixed", "nested_filter", "named_sum", "named_sum", "named_sum", "named_sum_used_twice", "chained_transform"])
     if kind == "chained_same":
         o, cl = r.choice([("(", ")"), ("[", "]"), ("{", "}")])
         return [f"{x} = {o}{y} for {y} in {o}{y} for {y} in {src}{cl}{cl}", f"print(sorted({x}))"]
@@ -743,7 +753,14 @@ def i_comprehension_chains(c):
     if kind == "chained_transform":
         return [f"{x} = [{y} + 1 for {y} in [{y} * 2 for {y} in {src}]]", f"print({x})"]
     if kind == "named_sum":
-        return [f"{w} = [{y} ** 2 for {y} in {src}]", f"{x} = sum({w})", f"print({x})"]
+        between = r.choice([[], [], [f"{w}.append(10)"], [f"{w}.pop()"], [f"{w}[0] = 7"], [f"print(len({w}))"], [f"{w} = {w} + [1]"], [f"{w}.sort(reverse=True)"], [f"del {w}[0]"]])
+        if r.random() < 0.5:
+            return [f"{w} = [{y} ** 2 for {y} in range({r.randint(2, 6)})]"] + between + [f"{x} = sum({w})", f"print({x})"]
+        # the comprehension reads other variables, which change (rebound or mutated in place) between its definition and its use
+        data, scale = c.name("data"), c.name("scale")
+        between = r.choice([[f"{data}.append(10)"], [f"{data}.pop()"], [f"{data}[0] = 50"], [f"{scale} = 5"], [f"{data} = [7]"], [f"del {data}[0]"], [f"{data} += [4]"], [f"print(len({data}))"],
+                            [f"{data}.clear()"], []])
+        return [f"{data} = [3, 1, 4]", f"{scale} = 2", f"{w} = [{y} * {scale} for {y} in {data}]"] + between + [r.choice([f"{x} = sum({w})", f"{x} = sum({w}) + len({data})"]), f"print({x})"]
     return [f"{w} = [{y} ** 2 for {y} in {src}]", f"{x} = sum({w})", f"print({x}, len({w}))", f"{w}.append(1)", f"print(sum({w}))"]
 
 
